@@ -57,6 +57,50 @@ func leakCheck(c *Ctx, op string, err error, secretText string, key []byte, acce
 	}
 }
 
+// set by c13_wasm.go when the js/wasm sources are compiled natively through the overlay
+var (
+	wasmValidate func(code string, secret []byte, counter uint64, digits, algo uint8) (bool, error)
+	wasmDerive   func(secret []byte, counter uint64, digits int, algo uint8) (string, error)
+)
+
+type wasmVCase struct {
+	KeyHex    string `json:"key_hex"`
+	Counter   uint64 `json:"counter"`
+	Digits    uint8  `json:"digits"`
+	Algo      uint8  `json:"algo"`
+	Submitted string `json:"submitted_hex"`
+	Note      string `json:"note"`
+}
+
+func judgeWasmV(c *Ctx, k wasmVCase) {
+	if wasmValidate == nil {
+		return
+	}
+	key := unhex(k.KeyHex)
+	sub := string(unhex(k.Submitted))
+	var ok bool
+	var err error
+	pan := monCatch(func() { ok, err = wasmValidate(sub, key, k.Counter, k.Digits, k.Algo) })
+	c.R.Eval(1)
+	if pan != nil {
+		return
+	}
+	c.R.Count("ValidateOTPWasm_pairs_judged(native overlay build)", 1)
+	pairRule(c, "ValidateOTPWasm", ok, err, "wasmv", k)
+	leakCheck(c, "ValidateOTPWasm", err, ref.Base32Encode(key), key, func() []string {
+		if k.Digits >= 6 && k.Digits <= 10 && ref.HashSupported(int(k.Algo)) {
+			return []string{ref.HOTP(key, k.Counter, int(k.Digits), int(k.Algo))}
+		}
+		return nil
+	}, "wasmv", k)
+	// the verdict itself (C20 decides the binding; here only supported parameters, as a cross-check of the pair)
+	if k.Digits >= 1 && k.Digits <= 10 && ref.HashSupported(int(k.Algo)) {
+		if want := sub == ref.HOTP(key, k.Counter, int(k.Digits), int(k.Algo)); ok != want {
+			c.R.Violate("C13|ValidateOTPWasm|verdict|", "ValidateOTPWasm's verdict differs from equality with the RFC 4226 code", "wasmv", k, fmt.Sprint(want), fmt.Sprintf("(%v, %v)", ok, err))
+		}
+	}
+}
+
 type genFailCase struct {
 	Op     string `json:"op"`
 	KeyHex string `json:"key_hex"`
@@ -171,6 +215,34 @@ func init() {
 				gf = append(gf, genFailCase{Op: "ParseOTPAuthURL", KeyHex: hexs(key), Secret: enc, URL: "otpauth://xotp/I:a?secret=" + enc}, genFailCase{Op: "ParseOTPAuthURL", KeyHex: hexs(key), Secret: enc, URL: "otpauth://totp/nolabel?secret=" + enc}, genFailCase{Op: "ParseOTPAuthURL", KeyHex: hexs(key), Secret: enc, URL: "https://totp/I:a?secret=" + enc})
 			}
 			parallelJudge(c, gf, judgeGenFail)
+			// the js/wasm validator, compiled natively through the overlay
+			if wasmValidate == nil {
+				c.R.Inconclusive("ValidateOTPWasm (bool, error) pairs: the js/wasm sources could not be compiled natively in this run (C20 still checks the binding's verdicts under Node)")
+			} else {
+				var ws []wasmVCase
+				for i := 0; i < c.N(2000, 50000); i++ {
+					key := rng.Bytes(10 + rng.Intn(40))
+					d, a := []int{6, 8, 9, 10}[rng.Intn(4)], rng.Intn(3)
+					ctr := gen.Counter(rng)
+					good := ref.HOTP(key, ctr, d, a)
+					subs := []struct{ s, note string }{{good, "accepting"}, {ref.HOTP(key, ctr+1, d, a), "wrong code"}, {good[:d-1], "wrong length"}, {"", "empty"}}
+					x := subs[i%len(subs)]
+					dd, aa := d, a
+					switch i % 11 {
+					case 9:
+						aa = 3 + rng.Intn(250)
+						x.note = "unsupported hash"
+					case 10:
+						dd = gen.Pick(rng, []int{0, 1, 5, 7, 11, 200})
+						x.note = "other digit count"
+						if dd >= 1 && dd <= 10 {
+							x.s = ref.HOTP(key, ctr, dd, a)
+						}
+					}
+					ws = append(ws, wasmVCase{KeyHex: hexs(key), Counter: ctr, Digits: uint8(dd), Algo: uint8(aa), Submitted: hexs([]byte(x.s)), Note: x.note})
+				}
+				parallelJudge(c, ws, judgeWasmV)
+			}
 		},
 		Replay: func(c *Ctx, kind string, raw json.RawMessage) error {
 			switch kind {
@@ -182,6 +254,8 @@ func init() {
 				return replayAs(raw, func(k ocraVCase) { judgeOCRAV(c, k) })
 			case "genfail":
 				return replayAs(raw, func(k genFailCase) { judgeGenFail(c, k) })
+			case "wasmv":
+				return replayAs(raw, func(k wasmVCase) { judgeWasmV(c, k) })
 			}
 			return fmt.Errorf("unknown kind %q", kind)
 		},
